@@ -22,7 +22,7 @@ CONTRACT_MODULES = None
 ASSUMPTIONS_GLOBAL = [
     "A-REAL: float64 arithmetic treated as exact real arithmetic; NaN and +-Inf conflated into one 'undefined' flag",
     "A-NP: numpy operations behave as modelled by pvc.symnp (validated by concrete replays on real numpy, not proved)",
-    "A-SIGMA: finite-sum rewrite rules (linearity, Fubini, non-negativity) as stated in lemmas/SigmaRules.lean",
+    "A-SIGMA: finite-sum rewrite rules and fact generators of pvc.sigma / pvc.run (linearity, Fubini, non-negativity, sub-sums, monotonicity): trusted, not machine-checked",
     "engine: pvc loader rewrites R1-R4, symbolic facade, z3 5.1 soundness",
 ]
 
@@ -213,7 +213,8 @@ def check_property(prop, tier, seed, jobs):
     known = load_json(os.path.join(ROOT, "known_findings.json"), {"findings": []})
     lock = load_json(os.path.join(ROOT, "obligations.lock.json"), {"proved": []})
     locked = set(lock.get("proved", []))
-    open_findings = [k for k in known.get("findings", []) if k.get("property") == prop and k.get("status") == "open"]
+    open_findings = [k for k in known.get("findings", []) if k.get("status") == "open"
+                     and (k.get("property") == prop or prop in (k.get("also") or []))]
 
     n_ob = n_dis = 0
     n_b = n_bdis = 0
@@ -247,9 +248,12 @@ def check_property(prop, tier, seed, jobs):
             oid = "%s|%s|%s" % (res["contract"], res["cfg"], v["obligation"])
             hit = None
             for k in open_findings:
-                if k.get("contract") == res["contract"] and v["obligation"].startswith(k.get("obligation", "\0")) and (
-                    k.get("cfg") in (None, "*", res["cfg"])
-                ):
+                # a finding names the call site: contract, configuration(s) and the exact
+                # obligation(s); any other failing obligation is still a violation
+                obs = k.get("obligations") or ([k["obligation"]] if k.get("obligation") else [])
+                cfgs = k.get("cfg")
+                cfg_ok = cfgs in (None, "*") or res["cfg"] == cfgs or (isinstance(cfgs, list) and res["cfg"] in cfgs)
+                if k.get("contract") == res["contract"] and cfg_ok and run.base_name(v["obligation"]) in obs:
                     hit = k
                     break
             if hit is not None:
